@@ -79,8 +79,15 @@ where
     fn drop(&mut self) {
         // when the state is cleared, unregister this error; this item is being dropped and its
         // error should no longer be shown
+        //
+        // the state is usually dropped outside of any view code (by the task of the render
+        // effect that held it), where no hook is installed: the error has to be unregistered
+        // from the hook it was thrown to
         if let Some(e) = self.error.take() {
-            throw_error::clear(&e);
+            match &self.hook {
+                Some(hook) => hook.clear(&e),
+                None => throw_error::clear(&e),
+            }
         }
     }
 }
